@@ -25,6 +25,9 @@ type Answer struct {
 	TransportErr error  // fail the round trip
 }
 
+// Unparseable is the logged name of a query the independent codec could not parse.
+const Unparseable = "<unparseable query>"
+
 type Query struct {
 	Name string
 	Type uint16
@@ -52,6 +55,9 @@ func (s *Server) RoundTrip(req *http.Request) (*http.Response, error) {
 	req.Body.Close()
 	q, err := dnsref.Decode(body)
 	if err != nil || len(q.Q) != 1 {
+		s.mu.Lock()
+		s.Log = append(s.Log, Query{Name: Unparseable, Seq: len(s.Log), Len: len(body)})
+		s.mu.Unlock()
 		return resp(req, 400, []byte("bad query"), false), nil
 	}
 	s.mu.Lock()
@@ -92,4 +98,35 @@ func resp(req *http.Request, status int, body []byte, noLength bool) *http.Respo
 	}
 	return &http.Response{StatusCode: status, Status: fmt.Sprintf("%d", status), Proto: "HTTP/1.1", ProtoMajor: 1, ProtoMinor: 1,
 		Header: h, Body: io.NopCloser(bytes.NewReader(body)), ContentLength: int64(len(body)), Request: req}
+}
+
+// Mux routes requests to per-host servers, so that independent cases can run in
+// parallel goroutines behind the single process-wide transport hook.
+type Mux struct {
+	mu      sync.RWMutex
+	servers map[string]*Server
+}
+
+func NewMux() *Mux { return &Mux{servers: map[string]*Server{}} }
+
+// Server returns (creating if needed) the server for host.
+func (m *Mux) Server(host string) *Server {
+	m.mu.Lock()
+	defer m.mu.Unlock()
+	s := m.servers[host]
+	if s == nil {
+		s = &Server{}
+		m.servers[host] = s
+	}
+	return s
+}
+
+func (m *Mux) RoundTrip(req *http.Request) (*http.Response, error) {
+	m.mu.RLock()
+	s := m.servers[req.URL.Host]
+	m.mu.RUnlock()
+	if s == nil {
+		return nil, fmt.Errorf("dohmem: no server for host %q", req.URL.Host)
+	}
+	return s.RoundTrip(req)
 }
